@@ -80,3 +80,14 @@ if not _cur and not _old:
     missing.append("device_cb failing path (neither the pinned nor the repaired form) in %s" % _DV)
 extra_text.append("Definition C13_DEVICE_FREES_ATTACHED : bool := %s.  (* src/core/device.c device_cb: a failing path frees whatever message is attached to its aio *)" % ("true" if _cur else "false"))
 _g13(r"if \(!nni_sock_raw\(s1\)\) \{\s*return \(NNG_EINVAL\);", _DV, "device_init requires raw sockets")
+
+# device_init: how many forwarding paths.  Current form: one path when s2 cannot receive OR the device is a
+# reflector (s1 == s2); without the second half two forwarders read from the one socket and race.
+_one = re.search(r"if \(\(\(nni_sock_flags\(s2\) & NNI_PROTO_FLAG_RCV\) == 0\) \|\| \(s1 == s2\)\) \{\s*num_paths = 1;", _dsrc)
+_two = re.search(r"if \(\(nni_sock_flags\(s2\) & NNI_PROTO_FLAG_RCV\) == 0\) \{\s*num_paths = 1;", _dsrc)
+if not _one and not _two:
+    missing.append("device_init num_paths rule (neither form) in %s" % _DV)
+extra_text.append("Definition C13_DEVICE_REFLECTOR_ONE_PATH : bool := %s.  (* src/core/device.c device_init: num_paths = 1 also when s1 == s2 *)" % ("true" if _one else "false"))
+_g13(r"int\s+num_paths = 2;", _DV, "device_init starts from two paths")
+_g13(r"if \(\(nni_sock_flags\(s1\) & NNI_PROTO_FLAG_RCV\) == 0\) \{\s*nni_sock \*temp = s1;\s*s1\s*= s2;\s*s2\s*= temp;", _DV, "device_init swaps so that s1 can receive")
+_g13(r"p->src\s*= i == 0 \? s1 : s2;\s*p->dst\s*= i == 0 \? s2 : s1;", _DV, "device_init path i: src/dst")
